@@ -25,15 +25,17 @@
                                has the semantics of the gate on its targets; lifted to whole transpiled circuits;
      spinchain_reproduces_circuit   END-TO-END, under the Section hypotheses composition_principle (ASSUMED:
                                closed form = expm, commuting exponentials, C11/C12/C14 composition) and the C13 facts
-                               c13_transpile_native / c13_transpile_sem (Props/C13.v was not available when this
-                               file was written; they are hypotheses of the statement, visible in its type).
+                               c13_transpile_native / c13_transpile_sem;
+     spinchain_reproduces_transpiled   the same with c13_transpile_native discharged by C13's transpile_wf_circuit: only the
+                               composition principle and the semantic C13 hypothesis remain.
    NOT proved (named in TRUSTED of tools/props/c06.py): scipy expm = the closed forms; the time-ordered product of the
    slices of the concatenated table = the product of the instruction pulses; non-rectangular pulse shapes. *)
 From Coq Require Import Reals ZArith QArith String List.
 From Coquelicot Require Import Coquelicot.
 From QV Require Import Found.Base Found.KS Found.KSProofs Found.Sym Found.SymProofs Found.Circ Found.CInst
   Gen.Gates Model.SpinChainTypes Gen.SpinChain Model.Concat Model.SpinChain Spec.SpinChainSpec
-  Proofs.SpinChainCal Proofs.SpinChainRule Proofs.SpinChainSem.
+  Proofs.SpinChainCal Proofs.SpinChainRule Proofs.SpinChainSem Proofs.SpinChainC13.
+From QV Require Model.Resolve Proofs.ResolveSem Gen.Devices Model.Transpile Proofs.TranspileC06.
 Import ListNotations.
 Local Open Scope string_scope.
 
@@ -146,6 +148,30 @@ Theorem spinchain_reproduces_circuit :
   (ph == sum_phase gs)%Q.
 Proof. exact SpinChainSem.spinchain_reproduces_circuit. Qed.
 Print Assumptions spinchain_reproduces_circuit.
+
+(* END-TO-END with the C13 fact c13_transpile_native DISCHARGED by C13's theorem transpile_wf_circuit
+   (Proofs/TranspileC06.v): gs is any C06 gate list carrying the names and targets of `transpile d N src` (the model of
+   ModelProcessor.transpile with the decompose-before-routing repair).  What is STILL hypothesised: the composition
+   principle, and c13_transpile_sem (C13's transpile_sem gives the semantic equality only up to a re-parameterisation of
+   the angles per transpiled gate; that bridge is not formalised). *)
+Theorem spinchain_reproduces_transpiled :
+  forall (R : PhaseRing) (env : nat -> atoms R)
+         (propagator : cfg -> option (list Q) -> list ngate -> state R -> state R)
+         (valid_schedule : cfg -> option (list Q) -> list ngate -> Prop),
+  (forall c sched gs tab ph pc,
+      load c sched gs = Ok (tab, ph) -> valid_schedule c sched gs -> pulse_icirc c gs 0 = Some pc ->
+      propagator c sched gs = sem (iden R env pc)) ->
+  forall d N src out (c : cfg) (gs : list ngate) (original_sem : state R -> state R),
+  In d Devices.devices -> Forall ResolveSem.wf_gate src -> Forall (fun g => Transpile.in_range N g = true) src ->
+  Transpile.transpile d N src = Resolve.Ok out ->
+  c_n c = N -> Forall2 TranspileC06.same_gate out gs ->
+  original_sem = sem (iden R env (full_icirc gs 0)) ->
+  forall sched tab ph,
+  setup_ok c -> load c sched gs = Ok (tab, ph) -> valid_schedule c sched gs ->
+  (forall psi, sem (iden R env (phase_icirc gs 0)) (propagator c sched gs psi) = original_sem psi) /\
+  (ph == sum_phase gs)%Q.
+Proof. exact reproduces_transpiled. Qed.
+Print Assumptions spinchain_reproduces_transpiled.
 
 (* ---- non-vacuity ---- *)
 Example pulse_gates_are : pulse_gates = ["ISWAP"; "RX"; "RZ"; "SQRTISWAP"].
